@@ -300,6 +300,13 @@ def run(chk):
     for c in all_calcs:
         orc.load_decl(XMLDIR, c, pk)
     chk.extra["subpackages_reached_through_links"] = sorted(pk)
+    # calculators whose resolved description holds a section with the attribute
+    # unchecked (found by attribute, not by name)
+    chk.extra["calculators_with_unchecked_section"] = [
+        c for c in all_calcs if orc.has_unchecked(orc.load_decl(XMLDIR, c))]
+    chk.extra["unchecked_cases_per_calculator"] = {
+        k.split("/", 1)[1]: v for k, v in chk.counters.items()
+        if k.startswith("unchecked_cases/")}
     chk.assumptions = [
         "the reference model is the documented merge (property statement + "
         "optionshandler.h comments); it judges names, per-name order and "
